@@ -5,6 +5,7 @@ package h
 import (
 	"encoding/json"
 	"fmt"
+	"runtime/debug"
 	"sort"
 	"strconv"
 	"strings"
@@ -48,6 +49,7 @@ type linOut struct {
 	Cas    uint64
 	Num    uint64
 	Shown  string // Update: body the callback was shown on its last invocation ("\x00" = nothing)
+	X      string // GetX: the _x xattr read ("" = none); UpdateX: the _x the callback was shown
 	ErrCls string
 }
 
@@ -57,6 +59,15 @@ type linState struct {
 	Exists bool // it has a body
 	Body   string
 	Cas    uint64 // 0 = not known to the checker yet (set by a blind write)
+	X      string // value of the system xattr _x ("" = none)
+}
+
+// keepX: the xattr a write of a body leaves behind (kept on a live document, gone on resurrection / creation)
+func (s linState) keepX() string {
+	if s.Exists {
+		return s.X
+	}
+	return ""
 }
 
 const nothing = "\x00"
@@ -115,7 +126,42 @@ func linStep(state any, input any, output any) (bool, any) {
 		if !out.OK {
 			return false, s
 		}
-		return true, linState{Row: true, Exists: true, Body: in.Body}
+		return true, linState{Row: true, Exists: true, Body: in.Body, X: s.keepX()}
+	case "GetX":
+		// GetWithXattrs: body, _x and CAS of one version
+		if s.Exists {
+			if !out.Found || out.Body != s.Body || out.X != s.X {
+				return false, s
+			}
+		} else if out.Found {
+			// a tombstone may be reported with its xattrs, never with a body
+			if !s.Row || out.Body != nothing || out.X != s.X {
+				return false, s
+			}
+		}
+		if out.Found {
+			if s.Cas != 0 && out.Cas != s.Cas {
+				return false, s
+			}
+			s.Cas = out.Cas
+		}
+		return true, s
+	case "UpdateX":
+		cur := nothing
+		if s.Exists {
+			cur = s.Body
+		}
+		if !out.OK {
+			return false, s
+		}
+		if out.Shown != cur || out.X != s.X {
+			return false, s // body and xattr shown to the callback are not those of the version it replaced
+		}
+		nx := nothing
+		if s.X != "" {
+			nx = s.X
+		}
+		return true, linState{Row: true, Exists: true, Body: appendTag(cur, in.Tag), X: appendTag(nx, in.Tag), Cas: out.Cas}
 	case "Add":
 		if out.OK != !s.Exists {
 			return false, s
@@ -132,7 +178,7 @@ func linStep(state any, input any, output any) (bool, any) {
 			}
 		}
 		if out.OK {
-			return true, linState{Row: true}
+			return true, linState{Row: true, X: s.X} // system xattrs survive a delete
 		}
 		return true, s
 	case "WriteCas":
@@ -151,7 +197,7 @@ func linStep(state any, input any, output any) (bool, any) {
 			}
 		}
 		if out.OK {
-			return true, linState{Row: true, Exists: true, Body: in.Body, Cas: out.Cas}
+			return true, linState{Row: true, Exists: true, Body: in.Body, Cas: out.Cas, X: s.keepX()}
 		}
 		return true, s
 	case "Remove":
@@ -166,7 +212,7 @@ func linStep(state any, input any, output any) (bool, any) {
 			return false, s
 		}
 		if out.OK {
-			return true, linState{Row: true, Cas: out.Cas}
+			return true, linState{Row: true, Cas: out.Cas, X: s.X}
 		}
 		return true, s
 	case "Incr":
@@ -193,7 +239,7 @@ func linStep(state any, input any, output any) (bool, any) {
 		if out.Shown != cur {
 			return false, s // the stored result was computed from a version that was not the current one
 		}
-		return true, linState{Row: true, Exists: true, Body: appendTag(cur, in.Tag), Cas: out.Cas}
+		return true, linState{Row: true, Exists: true, Body: appendTag(cur, in.Tag), Cas: out.Cas, X: s.keepX()}
 	case "SubDoc":
 		cur := nothing
 		if s.Exists {
@@ -202,7 +248,7 @@ func linStep(state any, input any, output any) (bool, any) {
 		if !out.OK {
 			return false, s
 		}
-		return true, linState{Row: true, Exists: true, Body: setProp(cur, in.Prop, in.Tag), Cas: out.Cas}
+		return true, linState{Row: true, Exists: true, Body: setProp(cur, in.Prop, in.Tag), Cas: out.Cas, X: s.keepX()}
 	}
 	return false, s
 }
@@ -258,7 +304,7 @@ func runLinPlan(p linPlan) (devs []Deviation, overlapRMW bool, err error) {
 			defer func() {
 				if r := recover(); r != nil {
 					mu.Lock()
-					panics = append(panics, fmt.Sprint(r))
+					panics = append(panics, fmt.Sprint(r)+"\n"+string(debug.Stack()))
 					mu.Unlock()
 				}
 			}()
@@ -315,6 +361,37 @@ func runLinPlan(p linPlan) (devs []Deviation, overlapRMW bool, err error) {
 						return []byte(appendTag(shown, tag)), nil, false, nil
 					})
 					out = linOut{OK: e == nil, Cas: cas, Shown: shown, ErrCls: errClass(e)}
+				case "GetX":
+					raw, xs, cas, e := ds.GetWithXattrs(ctx, op.Key, []string{"_x"})
+					if e == nil {
+						out = linOut{OK: true, Found: true, Body: nothing, Cas: cas}
+						if raw != nil {
+							out.Body = jsonCanon(string(raw))
+						}
+						if x, ok := xs["_x"]; ok {
+							out.X = jsonCanon(string(x))
+						}
+						seen[op.Key] = cas
+					} else if errClass(e) == "missing" {
+						out = linOut{OK: true}
+					} else {
+						out = linOut{ErrCls: errClass(e)}
+					}
+				case "UpdateX":
+					shown, shownX := nothing, ""
+					cas, e := ds.WriteUpdateWithXattrs(ctx, op.Key, []string{"_x"}, 0, nil, nil, func(doc []byte, xattrs map[string][]byte, _ uint64) (sgbucket.UpdatedDoc, error) {
+						shown, shownX = nothing, ""
+						if doc != nil {
+							shown = jsonCanon(string(doc))
+						}
+						nx := nothing
+						if x, ok := xattrs["_x"]; ok {
+							shownX = jsonCanon(string(x))
+							nx = shownX
+						}
+						return sgbucket.UpdatedDoc{Doc: []byte(appendTag(shown, tag)), Xattrs: map[string][]byte{"_x": []byte(appendTag(nx, tag))}}, nil
+					})
+					out = linOut{OK: e == nil, Cas: cas, Shown: shown, X: shownX, ErrCls: errClass(e)}
 				case "SubDoc":
 					cas, e := ds.WriteSubDoc(ctx, op.Key, in.Prop, 0, []byte(strconv.Quote(tag)))
 					out = linOut{OK: e == nil, Cas: cas, ErrCls: errClass(e)}
@@ -350,7 +427,7 @@ func runLinPlan(p linPlan) (devs []Deviation, overlapRMW bool, err error) {
 		// real-time overlap of a read-modify-write with another operation on the same key?
 		for i, a := range ops {
 			ka := a.Input.(linIn).K
-			if ka != "Incr" && ka != "Update" && ka != "SubDoc" && ka != "WriteCas" {
+			if ka != "Incr" && ka != "Update" && ka != "SubDoc" && ka != "WriteCas" && ka != "UpdateX" {
 				continue
 			}
 			for j, b := range ops {
@@ -380,6 +457,8 @@ func runLinPlan(p linPlan) (devs []Deviation, overlapRMW bool, err error) {
 	ds := w.Coll(0, 0)
 	for _, k := range keys {
 		incr, upd := 0, []string{}
+		var updX []string
+		xOnlyByUpdateX := true // no operation other than UpdateX can change _x except resurrection (needs a Delete)
 		onlyIncr, onlyUpd := true, true
 		for _, o := range hist[k] {
 			in, out := o.Input.(linIn), o.Output.(linOut)
@@ -394,9 +473,30 @@ func runLinPlan(p linPlan) (devs []Deviation, overlapRMW bool, err error) {
 					upd = append(upd, in.Tag)
 				}
 				onlyIncr = false
-			case "Get":
+			case "UpdateX":
+				if out.OK {
+					updX = append(updX, in.Tag)
+				}
+				onlyIncr, onlyUpd = false, false
+			case "Get", "GetX":
+			case "Delete", "Remove":
+				xOnlyByUpdateX = false
+				onlyIncr, onlyUpd = false, false
 			default:
 				onlyIncr, onlyUpd = false, false
+			}
+		}
+		if xOnlyByUpdateX && len(updX) > 0 {
+			_, xs, _, xe := ds.GetWithXattrs(ctx, k, []string{"_x"})
+			var doc struct {
+				L []string `json:"l"`
+			}
+			_ = json.Unmarshal(xs["_x"], &doc)
+			got := append([]string(nil), doc.L...)
+			sort.Strings(got)
+			sort.Strings(updX)
+			if xe != nil || strings.Join(got, ",") != strings.Join(updX, ",") {
+				devs = append(devs, Deviation{Clause: "lin.lostxupdate", Props: c03, Sig: "lin.lostxupdate", Msg: fmt.Sprintf("WriteUpdateWithXattrs calls %v succeeded on %q but the final _x list is %v (err %v): an update was lost or duplicated", updX, k, doc.L, xe)})
 			}
 		}
 		raw, _, e := ds.GetRaw(k)
@@ -424,7 +524,7 @@ func runLinPlan(p linPlan) (devs []Deviation, overlapRMW bool, err error) {
 func genLinPlan(rt *rapid.T) linPlan {
 	p := linPlan{Disk: chance(rt, 40, "disk"), Handles: rapid.IntRange(1, 3).Draw(rt, "handles"), Seed: int64(rapid.IntRange(1, 1<<30).Draw(rt, "seed"))}
 	nw := rapid.IntRange(2, 6).Draw(rt, "workers")
-	mode := pick(rt, []string{"mixed", "mixed", "counter", "list", "subdoc"}, "mode")
+	mode := pick(rt, []string{"mixed", "mixed", "counter", "list", "subdoc", "xlist", "mixedx"}, "mode")
 	for wi := 0; wi < nw; wi++ {
 		n := rapid.IntRange(3, 20).Draw(rt, "nops")
 		var ops []linOp
@@ -437,6 +537,11 @@ func genLinPlan(rt *rapid.T) linPlan {
 				op.K, op.Key = pick(rt, []string{"Update", "Update", "Get"}, "k"), "list"
 			case "subdoc":
 				op.K, op.Key = pick(rt, []string{"SubDoc", "SubDoc", "Get", "Update"}, "k"), "doc"
+			case "xlist":
+				op.K, op.Key = pick(rt, []string{"UpdateX", "UpdateX", "UpdateX", "GetX", "Set", "Update"}, "k"), "xdoc"
+			case "mixedx":
+				op.Key = pick(rt, []string{"a", "b"}, "key")
+				op.K = pick(rt, []string{"GetX", "GetX", "Get", "Set", "Add", "Delete", "WriteCas", "Remove", "Update", "UpdateX", "UpdateX", "SubDoc"}, "k")
 			default:
 				op.Key = pick(rt, []string{"a", "b"}, "key")
 				op.K = pick(rt, []string{"Get", "Get", "Set", "Add", "Delete", "WriteCas", "WriteCas", "Remove", "Update", "SubDoc"}, "k")
@@ -455,7 +560,7 @@ func genLinPlan(rt *rapid.T) linPlan {
 
 func TestC03(t *testing.T) {
 	st := statsFor("C03", "TestC03")
-	st.Rule = "generated plans of 2-6 goroutines x 3-20 operations (Get, Set, Add, Delete, WriteCas with the CAS the goroutine last saw or 0, Remove, Incr, Update appending the caller's tag to a list, WriteSubDoc of a per-goroutine property) on 1-2 shared keys through 1-3 handles of one memory or disk bucket, free-running with seeded scheduling noise at the verif hook points; invocation/response ticks and results are recorded and porcupine searches a linearization of each key's history against a sequential per-key specification (CAS values bound lazily); plus end-state invariants (counter = number of successful Incr, every successful Update tag exactly once); non-trivial = a read-modify-write overlapped another goroutine's operation on the same key in real time; distinct by plan"
+	st.Rule = "generated plans of 2-6 goroutines x 3-20 operations (Get, Set, Add, Delete, WriteCas with the CAS the goroutine last saw or 0, Remove, Incr, Update appending the caller's tag to a list, WriteSubDoc of a per-goroutine property, GetWithXattrs, WriteUpdateWithXattrs appending the tag to the body list and to a list in the system xattr _x) on 1-2 shared keys through 1-3 handles of one memory or disk bucket, free-running with seeded scheduling noise at the verif hook points; invocation/response ticks and results are recorded and porcupine searches a linearization of each key's history against a sequential per-key specification (CAS values bound lazily); plus end-state invariants (counter = number of successful Incr, every successful Update / WriteUpdateWithXattrs tag exactly once); non-trivial = a read-modify-write overlapped another goroutine's operation on the same key in real time; distinct by plan"
 	judge := func(devs []Deviation) (out []Deviation, inconclusive int) {
 		for _, d := range devs {
 			if d.Has("inconclusive") {
